@@ -46,6 +46,10 @@ Definition mwd_of (m : mwc) : mwd :=
   | MScr pre post => DScript (compile pre) (compile post)
   end.
 
+(* run-length encoded bodies (the harness uses it for bodies far larger than any buffer) *)
+Fixpoint zrep (v : Z) (k : nat) : list Z := match k with O => [] | S k1 => v :: zrep v k1 end.
+Definition zrle (runs : list (Z * Z)) : list Z := flat_map (fun r => zrep (fst r) (Z.to_nat (snd r))) runs.
+
 Inductive case :=
 | CHttp (listener : Z)                                  (* 0 = HTTP, 1 = HTTPS *)
         (calls : list (Z * Z * list hop))               (* AddRoute(method, path, handler), in call order *)
